@@ -46,9 +46,11 @@ def recycle (p : Pool) (e : Ent) : Pool :=
   { p with ents := p.ents.set e.id { id := p.next, gen := slot.gen + 1 },
            next := e.id, available := p.available + 1 }
 
-/-- `Reset`: truncates the slice, keeps the memory. -/
+/-- `Reset`: invalidates the generations of the pooled entries, truncates the slice, keeps
+    the memory. -/
 def reset (p : Pool) : Pool :=
-  { ents := p.ents.take reserved, stale := p.ents.drop reserved ++ p.stale,
+  { ents := p.ents.take reserved
+    stale := (p.ents.drop reserved).map (fun e => { e with gen := maxU32 }) ++ p.stale
     next := 0, available := 0 }
 
 /-- `Alive`: unchecked read of the generation at `e.id`. Reading beyond the backing array is
